@@ -56,8 +56,28 @@ def history(rng, rig, nops, malformed):
             rig.feed(H.gen_command(rng, rig, lim, ptstate) + '\r\n', dt)
 
 
-def corr_suite(ctx, suite, ncases, nops, malformed, catalogue):
+def prefix_traces():
+    rig = H.Rig()
+    try:
+        return [v for _, v in sorted(H.refused_prefix_traces(H.limits(rig)).items())]
+    finally:
+        rig.close()
+
+
+def corr_suite(ctx, suite, ncases, nops, malformed, catalogue, scripted=()):
     cases = []
+    for tr in scripted:
+        rig = H.Rig(t0=1000.0, timer_value=5, seed=4)
+        try:
+            for line, dt in tr:
+                if line is None:
+                    rig.refresh(dt)
+                else:
+                    rig.feed(line + '\r\n', dt)
+            cases.append(rig.case_term())
+            ctx.count(suite + '/scripted')
+        finally:
+            rig.close()
     for _ in range(ncases):
         seed = ctx.rng.randrange(1 << 30)
         rng = random.Random(seed)
@@ -375,6 +395,7 @@ def c05_oracle(ctx):
         [[None, 0], ['OFFSET=PFP,1,2,0.5\r\n', 10], ['OFFSET=PFP,1,x,3\r\n', 10], ['PRESET=PFP,0,0,80\r\n', 5],
          ['OFFSET=PFP,0.25,-0.0,1e-7\r\n', 10], ['SETUP=BWG3\r\n', 0], ['SETUP=Nope\r\n', 0], [None, 100000]],
     ]
+    directed += [[[None if l is None else l + '\r\n', dt] for l, dt in tr] for tr in prefix_traces()]
     for tr in directed:
         c05_check(ctx, tr, 1)
     for _ in range(n):
